@@ -191,15 +191,25 @@ func volatilityInds() []Ind {
 			PriceDeg: []int{1, 1, 1}, VolDeg: []int{0, 0, 0}, Window: true,
 		},
 		{
-			Name: "KeltnerChannel", Inputs: []string{High, Low, Close}, Params: []Param{per("period", 20)}, Outs: []string{"upper", "middle", "lower"},
+			Name: "KeltnerChannel", Inputs: []string{High, Low, Close}, Params: []Param{per("ema", 20), per("atr", 20)}, Outs: []string{"upper", "middle", "lower"},
+			// the EMA must not warm up after the ATR (the code skips the EMA by the difference)
+			Fix: func(c *Config) {
+				if c.P[1]+1 < c.P[0] {
+					c.P[0], c.P[1] = c.P[1], c.P[0]
+				}
+				if c.P[1]+1 < c.P[0] {
+					c.P[0] = c.P[1] + 1
+				}
+			},
 			Build: func(c Config) (func([]C) []C, int) {
 				a := volatility.NewKeltnerChannelWithPeriod[float64](c.P[0])
+				a.Atr = volatility.NewAtrWithPeriod[float64](c.P[1])
 				return func(in []C) []C { return o3(a.Compute(in[0], in[1], in[2])) }, a.IdlePeriod()
 			},
 			Doc: "Middle Line = EMA(period, closings); Upper Band = EMA + 2 * ATR(period, highs, lows, closings); Lower Band = EMA - 2 * ATR",
 			Ref: func(c Config, in In) []ref.S {
 				e := ref.Ema(in[Close], c.P[0])
-				a2 := ref.ScaleS(ref.SmaDiv(trRef(in), c.P[0]), 2)
+				a2 := ref.ScaleS(ref.SmaDiv(trRef(in), c.P[1]), 2)
 				return []ref.S{ref.AddS(e, a2), ref.Tail(e, a2.At), ref.SubS(e, a2)}
 			},
 			PriceDeg: []int{1, 1, 1}, VolDeg: []int{0, 0, 0}, Recursive: true,
